@@ -140,7 +140,10 @@ class Run:
         self.attempts = 0
 
     def describe(self):
-        return dict(variant=self.variant, binary=self.binary[0], args=self.args, tag=self.tag)
+        d = dict(variant=self.variant, binary=self.binary[0], args=self.args, tag=self.tag)
+        if getattr(self, "tsan_rule", None):
+            d["tsan_rule"] = self.tsan_rule
+        return d
 
 
 ASAN_RE = re.compile(r"ERROR: AddressSanitizer: ([\w-]+)")
